@@ -210,7 +210,7 @@ def check_C06(chk):
     # (3) valgrind memcheck on the -O3 objects: outputs must be defined (they are printed), no invalid access
     exe_v = build_driver(chk.wd, 'vg', extra='-DTJD_WRAP_GETRANDOM', wraps=('getrandom', 'getentropy', 'syscall'))
     chk.cov['builds'].append('vg(memcheck)')
-    vsub = flat(ugroups, 3 if chk.thorough else 9, drop=lambda ln: 'mlen=65536' in ln or 'adlen=65536' in ln)
+    vsub = flat(ugroups, 1 if chk.thorough else 3, drop=lambda ln: 'mlen=65536' in ln or 'adlen=65536' in ln)
     parts = chunks([(gi, g) for gi, g in enumerate(vsub)], max(1, len(vsub) // NCPU + 1))
 
     def vg(part):
